@@ -219,6 +219,10 @@ func runC06(r *Run) {
 		r.atLeast("pointer-to-text parameters of context methods", n, 1)
 	})
 
+	r.rule("R7", "the request view hands out what the context hands out: Req().Body / BodyRaw / Cookies / FormValue / Get / OriginalURL / Params / Path / Query / Queries / Method delegate to the context accessor of the same name, which is where the Immutable copy is made (sibling agreement)", func() {
+		viewDelegatesByNameRule(r, "DefaultReq", []string{"Body", "BodyRaw", "Cookies", "FormValue", "Get", "Method", "OriginalURL", "Params", "Path", "Queries", "Query"}, "the view would hand out another value (or an uncopied one) than the context accessor")
+	})
+
 	r.rule("R6", "a helper that points the request at something else for the duration of a call puts it back on every path: after SendFile rewrote the request URI every return is preceded by the restoring SetRequestURI (or it is deferred before the rewrite) — OriginalURL, Query and what was taken from them stay valid until the handler returns (E1 pairing)", func() {
 		f := r.Fn("", "(*DefaultCtx).SendFile")
 		var sets []ssa.Instruction
